@@ -34,11 +34,14 @@ TEXT = {
               '`tokensOf d items line` on `spell d items` (scan_spell; by induction over the matcher: objRe_m, tagRe_m, '
               'lazyUnits, scanLoop_spell). Hence the token lists of two spellings are equal up to the source field of tag and '
               'object tokens (tokens_equal_up_to_source), and, because the block parser and the compiler do not read that '
-              'field outside raw blocks (parseTokens_unsrc, compileList_unsrc), for templates without a tag named raw the '
+              'field - in a raw block only the sources of texts and trim markers, which do not depend on the delimiters '
+              '(parseTokens_unsrc, compileList_unsrc) -, for templates whose raw blocks are closed (RawClosed: a raw tag is followed, '
+              'at once or after one text item holding the body, arbitrary bytes, by an endraw tag) the '
               'compiled templates are EQUAL (spellings_compile_equal), so `run` of an engine with custom delimiters on the '
               'custom spelling is the run of the template compiled from the default spelling (run_custom_spelling_eq_default). '
-              'Raw blocks are excluded because the equivalence is false there (a raw body is emitted as spelled; counterexample '
-              'recorded). Clean also excludes three real quirks of the token pattern, each recorded as an evaluated example: '
+              'Since the repair fixes/raw-comment-lexical the body of a raw or comment block is one text token - literal bytes, the '
+              'same under every delimiter set - and the equivalence covers raw blocks; still excluded (counterexample recorded): '
+              'a raw tag without a lexical end tag whose block the parser closes at `endraw` WITH arguments. Clean also excludes three real quirks of the token pattern, each recorded as an evaluated example: '
               '`{% else  %}` has arguments " ", `{% else -%}` has arguments "-" AND a right trim marker, `{% if x%%}` is text. '
               'Further theorems: Delims("","","","") selects the defaults, position by position; a list that is not four entries selects '
               'the defaults; the delimiters used are never empty (delims_*); a trim marker is emitted exactly when the byte next '
@@ -49,8 +52,7 @@ TEXT = {
               "default delimiters, answers both by the model and the real engine, and compares the real engine's two results with "
               'each other.'),
     "design_ref": 'DESIGN.md 6 C19',
-    "note": NOTE + ('The equivalence theorem excludes templates with a tag named raw (false when the raw body contains objects or '
-              'tags; true but not proved when it contains only text) and is stated for compilation and for `run` with the same '
+    "note": NOTE + ('The equivalence theorem requires RawClosed (raw blocks closed by their lexical end tag) and is stated for compilation and for `run` with the same '
               'engine configuration on both sides (included files are read with the engine\'s own delimiters).'),
     "technique": ('Lean 4 proof (induction over the backtracking matcher on the token pattern, for all good delimiter sets; tokenizer '
               'lemmas generic in the delimiter list) + model/implementation correspondence + metamorphic '
